@@ -267,15 +267,25 @@ def rescale_mask(ctx, obs, rule='MASK'):
     q = 'rdm.combine._rescale'
     f = prog.func(q)
     n = 0
+    r = ctx.dep.result(q)
+    inl = Inliner(r, None, (f.pos_params[0],))
     for s in ast.walk(f.node):
         if isinstance(s, ast.Assign) and isinstance(s.targets[0], ast.Subscript):
             m = s.targets[0].slice
             if any(isinstance(x, ast.Call) and _leaf(x.func) == 'isnan' for x in ast.walk(m)):
                 n += 1
                 arg = [x.args[0] for x in ast.walk(m) if isinstance(x, ast.Call) and _leaf(x.func) == 'isnan'][0]
-                obs.check(isinstance(arg, ast.Name) and arg.id == f.pos_params[0], rule, q,
-                          f'`{norm(s.targets[0].value)}` is masked by the NaN pattern of the input dissimilarities',
-                          f'`{norm(s)}` masks by `{norm(arg)}`', '', where(prog, f, s))
+                # the masked array is the input itself or a plain alias of it (reaching definitions, no computation in between)
+                e = inl.inline(arg)
+                alts = _phi_alternatives(e)
+                con = f'`{norm(s.targets[0].value)}` is masked by the NaN pattern of the input dissimilarities'
+                if all(isinstance(a, ast.Name) and a.id == 'SRC0' for a in alts):
+                    obs.ok(rule, q, con, '', where(prog, f, s))
+                elif any(not mentions(a, 'SRC0') for a in alts):
+                    obs.bad(rule, q, con, f'`{norm(s)}` masks by `{norm(arg)}`, which does not derive from the input dissimilarities',
+                            where(prog, f, s))
+                else:
+                    obs.unk(rule, q, con, f'`{norm(s)}` masks by `{norm(arg)}` = `{ast.unparse(e)[:60]}`', where(prog, f, s))
     if n < 2:
         obs.unk(rule, q, 'NaN masks in _rescale', f'{n} masks found')
 
